@@ -43,7 +43,7 @@ ASSUMPTIONS = ['transport contract: ordered delivery, recv on an empty pipe '
                'blocks forever, join returns iff the target returned; messages '
                'by reference (pickling not modelled); OS reaping outside']
 BOUNDS = {'quick': '2 processes + 1 step, parallel or not (two symbolic flags), '
-                   'agent timestep in [1,3], second process 2, killer in [1,2], operation in '
+                   'agent timestep in [1,3], second process self-paced (default calculate_timestep, changes its own timestep from 2 to 1), killer in [1,2], operation in '
                    '{none, delete, divide with parallel daughters, move, generate a parallel process}, stop '
                    'point in {end after run_for without force, end after '
                    'update, end twice, engine dropped}',
@@ -86,6 +86,28 @@ class Grow(Process):
         self.k += 1
         if CTX.get('empty_updates') and self.parameters['who'] == 'a':
             return {}          # nothing to report this tick (a falsy result)
+        if key not in CTX['deltas']:
+            CTX['deltas'][key] = CTX['ctx'].int('d', -3, 3)
+        return {'s': {'x': CTX['deltas'][key]}}
+
+
+class SelfPaced(Process):
+    """Keeps the default calculate_timestep() (reads parameters['timestep'])
+    and changes its own timestep while running: 2 for the first interval, 1
+    afterwards."""
+
+    def __init__(self, parameters):
+        parameters = dict(parameters, timestep=2)
+        super().__init__(parameters)
+        self.k = 0
+
+    def ports_schema(self):
+        return copy.deepcopy(SUB)
+
+    def next_update(self, timestep, states):
+        key = ('q', self.k)
+        self.k += 1
+        self.parameters['timestep'] = 1
         if key not in CTX['deltas']:
             CTX['deltas'][key] = CTX['ctx'].int('d', -3, 3)
         return {'s': {'x': CTX['deltas'][key]}}
@@ -171,7 +193,7 @@ def run_once(ctx, cfg, flags, ivs, tag):
     CTX['made'] = []
     sink_rows = stubs.SINK['tags']
     grow = Grow({'who': 'a', '_parallel': flags['a']})
-    other = Grow({'who': 'q', '_parallel': flags['q']})
+    other = SelfPaced({'_parallel': flags['q']})
     step = Copy({'_parallel': flags['st']})
     killer = Killer({'op': cfg['op'],
                      'daughters_parallel': flags['daughters']})
